@@ -112,6 +112,8 @@ JudgeGraph(e, pre) ==
 
 \* topology functions
 ISqrtUpTo(n) == CHOOSE k \in 0..46340 : k * k <= n /\ (k + 1) * (k + 1) > n
+RECURSIVE DivTimes(_, _, _)
+DivTimes(i, edge, k) == IF k = 0 \/ i = 0 THEN i ELSE DivTimes(i \div edge, edge, k - 1)
 JudgeTopo(e) ==
   LET subj == "topo." \o e.act.m
       a == e.act.args
@@ -127,8 +129,10 @@ JudgeTopo(e) ==
          ELSE LET nb == Neighbors(a[1], nd, a[3], r) IN
               Expect(e.ret.t = "some" /\ ClassOK([c |-> "between", a |-> nb.lo, b |-> nb.hi], e.ret.v, <<>>),
                      subj, "C20", "neighbourhood differs from the Euclidean ball on the smallest enclosing hypercube")
+       \* ("a bijection on the hypercube": an index beyond the last cell of the cube addresses nothing - unjudged)
        [] e.act.m = "decompose_index" ->
-         Expect(RetEq(e.ret, RSome(Decompose(a[1], a[2], a[3]))), subj, "C20", "coordinates differ")
+         IF a[2] < 1 \/ DivTimes(a[1], a[2], a[3]) # 0 THEN Ok(subj)
+         ELSE Expect(RetEq(e.ret, RSome(Decompose(a[1], a[2], a[3]))), subj, "C20", "coordinates differ")
        [] e.act.m = "euclidean_distance" ->
          IF Len(a[1]) # Len(a[2]) THEN Expect(RetEq(e.ret, RNone), subj, "C20", "length mismatch must yield None")
          ELSE LET d2 == Dist2(a[1], a[2])
@@ -156,12 +160,10 @@ JudgeItem(e) ==
          [] m = "substitute" -> StructFuzzy(a[1]) \/ StructFuzzy(a[2]) \/ RetEq(e.ret, RVal(Subst(a[1], a[2], a[3])))
          [] m = "equals" -> StructFuzzy(a[1]) \/ StructFuzzy(a[2]) \/ RetEq(e.ret, RVal(DeepEq(a[1], a[2])))
          [] m = "shallow_eq" -> RetEq(e.ret, RVal(ShallowEq(a[1], a[2])))
-         \* the n-th point of the pattern's kind in depth-first order (the item itself first), counting on from a[3];
-         \* Err carries the count reached
+         \* the n-th point of the pattern's kind in depth-first order (the item itself first), counting on from a[3]
          [] m = "find" -> LET ms == SelectPoints(a[1], LAMBDA p : ShallowEq(p, a[2])) IN
                           IF a[4] >= a[3] /\ a[4] - a[3] < Len(ms) THEN e.ret.t = "ok" /\ e.ret.v = ms[a[4] - a[3] + 1]
-                          ELSE IF a[4] < a[3] THEN e.ret.t = "err" /\ e.ret.v = a[3] + Len(ms)
-                          ELSE e.ret.t = "err" /\ e.ret.v = a[3] + Len(ms)
+                          ELSE e.ret.t = "err"        \* (what the Err carries - the count reached today - is not documented)
          [] m = "to_string" -> Fuzzy(a[1]) \/ RetEq(e.ret, RVal(PrintItem(a[1])))
          [] OTHER -> FALSE,
        subj, own, "Item function differs from the depth-first point algebra")
